@@ -1,8 +1,115 @@
 import ApolloModel.Model.Proto
-open Apollo Apollo.Proto
+import ApolloModel.Model.SmithResponse
+open Apollo Apollo.Proto Apollo.Smith
 namespace Driver
 
 /-- streams of property C33 are named `c33.<name>` -/
-def c33 (_stream : String) (_fs : List String) : String := "unknown-stream"
+def takeUntil (stop : Char → Bool) (cs : List Char) : String × List Char :=
+  (String.ofList (cs.takeWhile (fun c => !stop c)), cs.dropWhile (fun c => !stop c))
+
+mutual
+/-- `{Ty|sel…}` written by harness/src/p33.rs `enc_selset` -/
+def decSelSet : Nat → List Char → Option (Name × Sels × List Char)
+  | 0, _ => none
+  | f + 1, cs =>
+    match cs with
+    | '{' :: r =>
+      let (ty, r1) := takeUntil (· == '|') r
+      match decSels f (r1.drop 1) with
+      | some (ss, r2) => some (ty, ss, r2)
+      | none => none
+    | _ => none
+def decSels : Nat → List Char → Option (Sels × List Char)
+  | 0, _ => none
+  | f + 1, cs =>
+    match cs with
+    | '}' :: r => some (.nil, r)
+    | 'F' :: r =>
+      let (alias, r1) := takeUntil (· == ',') r
+      let (name, r2) := takeUntil (· == ',') (r1.drop 1)
+      match Ty.decodeAux (r2.length + 1) (r2.drop 1) with
+      | some (ty, r3) =>
+        match r3 with
+        | '.' :: r4 =>
+          match decSels f r4 with
+          | some (tl, r5) =>
+            some (.cons (.field (if alias == "-" then none else some alias) name ty ty.innerNamedType .nil) tl, r5)
+          | none => none
+        | _ =>
+          match decSelSet f r3 with
+          | some (subTy, sub, r4) =>
+            match decSels f r4 with
+            | some (tl, r5) => some (.cons (.field (if alias == "-" then none else some alias) name ty subTy sub) tl, r5)
+            | none => none
+          | none => none
+      | none => none
+    | 'S' :: r =>
+      let (name, r1) := takeUntil (· == ';') r
+      match decSels f (r1.drop 1) with
+      | some (tl, r2) => some (.cons (.spread name) tl, r2)
+      | none => none
+    | 'I' :: r =>
+      let (tc, r1) := takeUntil (· == '{') r
+      match decSelSet f r1 with
+      | some (_, sub, r2) =>
+        match decSels f r2 with
+        | some (tl, r3) => some (.cons (.inline (if tc == "-" then none else some tc) sub) tl, r3)
+        | none => none
+      | none => none
+    | _ => none
+end
+
+def decSchema (s : String) : Schema :=
+  ((s.splitOn ";").filter (· ≠ "")).filterMap fun entry =>
+    match entry.splitOn ":" with
+    | ["S", n] => some (n, TypeDef.scalar)
+    | ["E", n, vs] => some (n, .enum ((vs.splitOn ",").filter (· ≠ "")))
+    | ["O", n, is] => some (n, .object ((is.splitOn ",").filter (· ≠ "")))
+    | ["I", n] => some (n, .interface)
+    | ["U", n, ms] => some (n, .union ((ms.splitOn ",").filter (· ≠ "")))
+    | ["X", n] => some (n, .input)
+    | _ => none
+
+def decFrags (s : String) : Option Fragments :=
+  ((s.splitOn "^").filter (· ≠ "")).mapM fun entry =>
+    match entry.splitOn "~" with
+    | [name, cond, body] =>
+      match decSelSet (body.length + 2) body.toList with
+      | some (_, sels, []) => some (name, cond, sels)
+      | _ => none
+    | _ => none
+
+def decCfg (s : String) : Option Cfg :=
+  match s.splitOn "," with
+  | [a, b, c] =>
+    match a.toNat?, b.toNat? with
+    | some mn, some mx =>
+      if c == "-" then some { minList := mn, maxList := mx, nullRatio := none }
+      else
+        match c.splitOn "/" with
+        | [n, d] =>
+          match n.toNat?, d.toNat? with
+          | some n, some d => some { minList := mn, maxList := mx, nullRatio := some (n, d) }
+          | _, _ => none
+        | _ => none
+    | _, _ => none
+  | _ => none
+
+def c33 (stream : String) (fs : List String) : String :=
+  match stream, fs with
+  | "c33.build", [schema, op, frags, cfg, script] =>
+    let schema := decSchema (String.ofList (decodeField schema))
+    let op := decodeField op
+    let script := ((String.ofList (decodeField script)).splitOn ",").filterMap String.toNat?
+    match decSelSet (op.length + 2) op, decFrags (String.ofList (decodeField frags)), decCfg (String.ofList (decodeField cfg)) with
+    | some (rootTy, sels, []), some frags, some cfg =>
+      match buildData schema frags cfg 1000000 rootTy sels script with
+      | .ok j _ => j.render
+      | .exhausted => "ERR exhausted"
+      | .emptyChoose => "ERR empty-choose"
+      | .panic p => "PANIC " ++ p
+      | .outOfFuel => "OUT-OF-FUEL"
+    | _, _, _ => "bad-case"
+  | _, _ => "bad-case"
 
 end Driver
